@@ -2,7 +2,8 @@
 input directory into a directory data store; the middle step kills the process
 when it is handed its (kill_at+1)-th input (serial execution: exactly kill_at
 records have then been written).
-argv: JSON {"indir","outdir","kill_at": int (-1 = never), "log": path, "bad": [ids producing NotCompleted]}"""
+argv: JSON {"indir","outdir","kill_at": int (-1 = never), "log": path, "bad": [ids producing NotCompleted],
+"idfn": bool (inputs are named sNN_raw.fasta and apply_to gets a user id_from_source mapping them to sNN)}"""
 import json
 import os
 import sys
@@ -25,7 +26,7 @@ class marker:
         if COUNT[0] == self.kill_at:
             os._exit(77)
         COUNT[0] += 1
-        src = os.path.basename(str(seqs.info.source))
+        src = os.path.basename(str(seqs.info.source)).replace("_raw", "")
         with open(self.log, "a") as f:
             f.write(src + "\n")
         if src.split(".")[0] in self.bad:
@@ -38,5 +39,15 @@ out = open_data_store(cfg["outdir"], suffix="fasta", mode="a")
 loader = get_app("load_unaligned", format="fasta", moltype="dna")
 writer = get_app("write_seqs", out, format="fasta")
 app = loader + marker(cfg["kill_at"], cfg["log"], cfg.get("bad", [])) + writer
-app.apply_to(ins, logger=False, show_progress=False)
+if cfg.get("idfn"):
+    from pathlib import Path
+
+    def idfn(src):
+        # a user supplied identifier function: input sNN_raw.fasta is the record sNN
+        name = Path(str(getattr(src, "unique_id", getattr(src, "source", src)))).name
+        return name.split(".")[0].replace("_raw", "")
+
+    app.apply_to(ins, id_from_source=idfn, logger=False, show_progress=False)
+else:
+    app.apply_to(ins, logger=False, show_progress=False)
 print(json.dumps({"done": True}))
